@@ -594,6 +594,25 @@ def _run_sig(case, out):
             return
         strings.append(((div, hat, dot), p))
         out.label("printer==reference" if p == ref_print(sig, div, hat, dot) else "printer!=reference")
+    # the static printer takes the caller's dictionary: the order in which the caller wrote the keys (and keys
+    # with exponent 0) are not part of the signature
+    rot = (sum(abs(x) for x in sig) + nz) % 9
+    order = list(range(9))[::-1]
+    order = order[rot:] + order[:rot]
+    for keep_zero in (False, True):
+        d = {SIU[i]: sig[i] for i in order if sig[i] != 0 or keep_zero}
+        for div, hat, dot in FORMATS:
+            try:
+                p = U.Quantity.sidict_to_unit(d, div, hat, dot)
+            except Exception as ex:
+                out.fail("print-raises", dict(det, fmt=[div, hat, dot], sidict=list(d.items()), error=repr(ex)))
+                return
+            # (the class-level printer writes an empty numerator as "1" -- "1/s", "1" -- which is a display form
+            # the parser does not claim to read; the instance printer writes "/s" and "")
+            if isinstance(p, str) and p[:1] == "1" and not any(x > 0 or (x < 0 and not div) for x in sig):
+                p = p[1:]
+                out.label("sidict-printer-1-placeholder")
+            strings.append((("sidict", list(d), div, hat, dot), p))
     for fmt, p in strings:
         if not isinstance(p, str):
             out.fail("print-parse-roundtrip", dict(det, fmt=fmt, printed=repr(p)))
